@@ -10,6 +10,7 @@
 WORLDS = {
     "exec": {},
     "mod": {},
+    "cache": {},
     "svc": {"l2": ["services/basic_service.go", "services/manager.go", "services/failure_watcher.go"]},
 }
 
@@ -63,6 +64,17 @@ PROPS["C18"] = {
     "level_text": "seeded exploration of dependency graphs, target sets, start orders, latencies, failures and stop times of the real module manager and wrappers against the DAG order model; sampling, not proof",
     "level_note": "trusted: simulator engine, DAG reachability model written from the statement",
     "design_ref": "DESIGN.md section 5 C18",
+}
+
+PROPS["C19"] = {
+    "world": "cache", "level": "exploration", "quick_s": 12, "thorough_s": 360,
+    "rule": "one evaluation = one sequential client history (5..60 operations: set, add, async and multi sets, get-multi, delete, clock advances) against one stacking order of LRU / Versioned(two versions) / Snappy over MockCache behind a fault-injecting layer, compared per read with a map-with-expiry model that tracks the local and the backend clock separately; or one server-list history of the jump-hash selector; non-trivial = a read was served by the in-memory layer after the backend entry had expired (wrappers) or a key moved after a server was appended (selector); distinct = distinct action sequence hash among non-trivial runs",
+    "real": ["cache.LRUCache", "cache.Versioned", "cache.SnappyCache", "cache.MockCache", "cache.MemcachedJumpHashSelector"],
+    "stub": ["sequential client", "fault layer above MockCache (failed Set/Add/Delete, failing / empty reads)", "clock: bubble clock for the LRU layer, MockCache.Advance for the backend (skew injected by advancing only one of them)"],
+    "assumptions": _ASSUME_COMMON + ["weakest reading of the expiry clause: a value may be returned while the backend still holds it (backend clock), while the in-memory layer holds it from the store (local clock + TTL) or from a back-fill (local time of the last read the backend could serve + LRU default retention)", "after a store that reported an error both the previous value and the attempted value are acceptable", "server selection is a pure function: covered only at 'server list changed' events (input-shaped, see DESIGN.md section 6)"],
+    "level_text": "seeded exploration of operation / clock-advance / skew / fault histories of every wrapper stacking order against a map-with-expiry reference model; sampling, not proof",
+    "level_note": "trusted: simulator engine and the reference model written from the statement; no concurrency is involved (sequential client), the simulated dimensions are time, skew, eviction pressure and backend faults",
+    "design_ref": "DESIGN.md section 5 C19",
 }
 
 HOOK_COMMITS = []
